@@ -849,6 +849,42 @@ impl<T: RequestHandler> ServerContext<T> {
     }
 }
 
+/// Verification hook: drives the private request front door without sockets.
+#[cfg(hickory_dns_verif)]
+#[doc(hidden)]
+pub struct VerifContext<T>(ServerContext<T>);
+
+#[cfg(hickory_dns_verif)]
+impl<T: RequestHandler> VerifContext<T> {
+    /// same construction as `Server::with_access`
+    pub fn new(
+        handler: T,
+        denied_networks: impl IntoIterator<Item = IpNet>,
+        allowed_networks: impl IntoIterator<Item = IpNet>,
+    ) -> Self {
+        let mut access = AccessControl::default();
+        access.insert_deny(denied_networks);
+        access.insert_allow(allowed_networks);
+        Self(ServerContext {
+            handler,
+            access,
+            shutdown: CancellationToken::new(),
+        })
+    }
+
+    /// what the UDP/TCP accept loops call for every received message
+    pub async fn handle_raw_request(
+        &self,
+        message: SerialMessage,
+        protocol: Protocol,
+        response_handler: BufDnsStreamHandle,
+    ) {
+        self.0
+            .handle_raw_request(message, protocol, response_handler)
+            .await
+    }
+}
+
 // method to return an error to the client
 async fn error_response_handler(
     protocol: Protocol,
